@@ -311,6 +311,17 @@ impl<'a> ExpressionEvaluator<'a> {
         Ok(self.row[idx].clone())
     }
 
+    /// An integer zero: dividing by it is an error (the integer types would panic).
+    fn is_integer_zero(value: &DataType) -> bool {
+        match value {
+            DataType::Int(v) => v.0 == 0,
+            DataType::BigInt(v) => v.0 == 0,
+            DataType::UInt(v) => v.0 == 0,
+            DataType::BigUInt(v) => v.0 == 0,
+            _ => false,
+        }
+    }
+
     fn logical_and(left: &DataType, right: &DataType) -> TypeSystemResult<DataType> {
         // Handle NULL semantics first (ANSI SQL logic)
         if matches!(left, DataType::Null) || matches!(right, DataType::Null) {
@@ -463,6 +474,13 @@ impl<'a> ExpressionEvaluator<'a> {
                 }
                 BinaryOperator::Multiply => {
                     Ok(vec![left[0].mul(&right[0]).map_err(EvaluationError::from)?])
+                }
+                BinaryOperator::Divide | BinaryOperator::Modulo
+                    if Self::is_integer_zero(&right[0]) =>
+                {
+                    Err(EvaluationError::InvalidExpression(
+                        "division by zero".to_string(),
+                    ))
                 }
                 BinaryOperator::Divide => {
                     Ok(vec![left[0].div(&right[0]).map_err(EvaluationError::from)?])
